@@ -267,6 +267,22 @@ def run(ctx, spec):
                         ctx.sample(case)
                     if ctx.too_many():
                         return
+            rng = ctx.rng("chain")
+            for _ in range(max(10, spec["nrand"] // 3)):
+                Gn, Sn, lm, c = gen.chain_case(rng)
+                case = {"kind": "plain", "G": Gn, "S": Sn, "leafmap": lm, "costs": c}
+                check_case(ctx, case, table_hook=hook, brute=False, do_genall=False)
+                ctx.count("chain_cases")
+                if ctx.too_many():
+                    return
+            rng = ctx.rng("block")
+            for _ in range(max(10, spec["nrand"] // 4)):
+                Gn, Sn, lm = gen.block_dup_input(rng, 8)
+                case = {"kind": "plain", "G": Gn, "S": Sn, "leafmap": lm, "costs": gen.tame(gen.random_cost(rng, plain=True), len(lm))}
+                check_case(ctx, case, table_hook=hook, brute=False, do_genall=False)
+                ctx.count("block_duplication_cases")
+                if ctx.too_many():
+                    return
             rng = ctx.rng("rand")
             for _ in range(spec["nrand"]):
                 Gn, Sn, lm = gen.random_input(rng, spec["rand_obj"], spec["rand_sp"], min_obj=2)
